@@ -44,6 +44,10 @@ pub fn battery<Ty: EdgeType, Ix: IndexType>(g: &Sg<Ty, Ix>) -> Vec<String> {
     if g.edge_indices().map(|e| e.index() as i64).collect::<Vec<_>>() != er.chunks(4).map(|c| c[0]).collect::<Vec<_>>() { v.push("edge-indices-mismatch".into()); }
     if g.edge_weights().map(|w| *w as i64).collect::<Vec<_>>() != er.chunks(4).map(|c| c[3]).collect::<Vec<_>>() { v.push("edge-weights-mismatch".into()); }
     if ids.len() != g.node_count() || er.len() / 4 != g.edge_count() { v.push("counts-vs-iterators-mismatch".into()); }
+    // double-ended iteration (vacant slots are skipped from both ends), size hints and indexing agree with the forward lists
+    if !crate::enc::rev_ok(g.node_indices()) || !crate::enc::rev_ok(g.edge_indices()) || !crate::enc::rev_ok(g.node_references())
+        || !crate::enc::rev_ok(g.edge_references()) { v.push("back-iteration-mismatch".into()); }
+    if g.node_indices().any(|i| Some(&g[i]) != g.node_weight(i)) || g.edge_indices().any(|e| Some(&g[e]) != g.edge_weight(e)) { v.push("index-operator-mismatch".into()); }
     v
 }
 
